@@ -197,7 +197,10 @@ def gen_e3():
 
 def gen_e4():
     env = {"DEF": "1", "EMPTY": "", "ZERO": "0", "CHAIN": "DEF", "TWO": "2", "TOUNDEF": "NOTDEF", "EXPR": "1 + 1",
-           "NEG": "-1", "SELF": "SELF", "MUT1": "MUT2", "MUT2": "MUT1", "PAREN": "(2 + 1)"}
+           "NEG": "-1", "SELF": "SELF", "MUT1": "MUT2", "MUT2": "MUT1", "PAREN": "(2 + 1)",
+           # function-like macros: their bare names (no parenthesis follows) stay identifiers
+           "FL(x)": "1", "FL2(a, b)": "2", "FL0()": "(1)",
+           "Z\u00c4HLER": "3", "gr\u00f6\u00dfe": "TWO"}
     names = ["DEF", "EMPTY", "ZERO", "UNDEF", "CHAIN", "SELF"]
     for n in names:
         for form in ("defined {}", "defined({})", "defined ( {} )", "defined\t{}", "!defined {}", "!defined({})",
@@ -210,7 +213,9 @@ def gen_e4():
                   # but plain identifiers in a C #if
                   "and", "or", "not", "xor", "compl", "bitand", "bitor", "not_eq", "and_eq", "or_eq", "xor_eq",
                   "new", "class", "typeof", "elif", "else", "endif", "include", "define", "pragma", "L", "u8", "U",
-                  "definedX", "defined_", "__COUNTER", "NULL", "nullptr"):
+                  "definedX", "defined_", "__COUNTER", "NULL", "nullptr",
+                  "FL", "FL2", "FL0",                                                  # un-invoked function-like macros
+                  "Z\u00c4HLER", "gr\u00f6\u00dfe", "\u00c9T\u00c9", "\u03c0", "d\u00e9fini"):     # letters outside ASCII
         for form in ("{}", "{} == 0", "{} + 1 == 1", "!{}", "{} || 1", "{} && 1", "({})", "-{} == 0", "{} * 2 == 4",
                      "{} * 3 == 3", "2 * {} == 3", "2 * {} == 4"):
             yield form.replace("{}", ident), env, "E4"
@@ -221,6 +226,10 @@ def gen_e4():
     yield "PAREN * 2 == 6", env, "E4"
     yield "NEG - NEG == 0", env, "E4"
     yield "2 NEG == 1", env, "E4"          # 2 -1
+    yield "FL + FL2 + FL0 == 0", env, "E4"       # (invocations are C03's subject; cexpr models object-like macros only)
+    yield "Z\u00c4HLER * 2 == 6 && gr\u00f6\u00dfe == 2", env, "E4"
+    yield "!defined(\u00c9T\u00c9) && d\u00e9fini + 1 == 1", env, "E4"
+    yield "defined(Z\u00c4HLER) && defined gr\u00f6\u00dfe", env, "E4"
 
 
 def rand_tree(rng, depth, leaves):
